@@ -252,6 +252,88 @@ theorem C20_roundtrip_seek (l : Ref) (k : Nat) (hk : Regular k) (cs : List (List
   · show (fileTell refIO rd.1 o1.f).out = _; rw [hof, (fileTell_at d2').1]; simp [readEndPos]
   · show (fileEof refIO rd.1 o1.f).out = _; rw [hof, (fileEof_at d2').1]; simp
 
+/-- **Random access.**  On a stream that can read and write (not append mode), at any position: seek to any offset
+    `t` (also beyond the end of the file: the gap reads as zero bytes), write a non-empty item, seek back to `t`, read
+    the same number of bytes: the item comes back identical, with item count 1; the rest of the file is as `overwrite`
+    says. -/
+theorem C20_random_access {l : Ref} {h : Handle} {k : Nat} {m : Mode} {p : Nat} {e : Bool} {c : List Byte}
+    (a : At l h k m p e c) (hk : Regular k) (hr : m.canRead = true) (hw : m.canWrite = true) (hm : m ≠ .a)
+    (t : Nat) (d : List Byte) (hd : d ≠ []) :
+    let s1 := fileSeek refIO l (some h) t .set
+    let wr := fileWrite refIO s1.lib (some h) d
+    let s2 := fileSeek refIO wr.lib (some h) t .set
+    let rd := fileRead refIO s2.lib (some h) d.length
+    s1.out = .ok () ∧ wr.out = .ok 1 ∧ s2.out = .ok () ∧ rd.out = .ok (1, d) ∧
+      At rd.lib h k m (t + d.length) false (overwrite c t d) := by
+  intro s1 wr s2 rd
+  obtain ⟨a1, _, a3⟩ := fileSeek_at a hk t .set t (Or.inl ⟨rfl, rfl⟩)
+  obtain ⟨b1, _, b3⟩ := fileWrite_at a3 hk hw hm d hd
+  obtain ⟨c1, _, c3⟩ := fileSeek_at b3 hk t .set t (Or.inl ⟨rfl, rfl⟩)
+  obtain ⟨d1, _, d3⟩ := fileRead_at c3 hk hr d.length
+  have hback := overwrite_read_back c t d
+  have hlen : d.length ≠ 0 := by cases d <;> simp_all
+  refine ⟨a1, b1, c1, ?_, ?_⟩
+  · show (fileRead refIO s2.lib (some h) d.length).out = _
+    rw [d1, hback]; simp [hlen]
+  · have := d3
+    rw [hback] at this
+    simpa using this
+
+/-- **Text written with print_to arrives byte for byte.**  Under the reference stdio: open "w"/"w+", any sequence of
+    print_to calls whose formats produced any fragments (each fragment is one File_Format_To = vfprintf), reopen
+    "r"/"r+", read in any chunking: every print_to returns the number of characters it wrote, the file holds exactly the
+    concatenation of all fragments, and the reads deliver it.  (What the fragments are for a given format and
+    arguments, and that scan_from's conversions invert print_to's, is C14/C15.) -/
+theorem C20_print_transport (l : Ref) (k : Nat) (hk : Regular k) (mw mr : Mode) (hmw : mw = .w ∨ mw = .wp)
+    (hmr : mr = .r ∨ mr = .rp) (texts : List (List (List Byte))) (ns : List Nat) :
+    let o1 := fileOpen refIO Cfg.fixed l none k mw
+    let pr := printAll refIO o1.lib (some l.next) texts
+    let o2 := fileOpen refIO Cfg.fixed pr.1 (some l.next) k mr
+    let rd := readAll refIO o2.lib o2.f ns
+    o1.f = some l.next ∧ pr.2 = texts.map (fun fr => .ok (fr.flatten.length : Int)) ∧ o2.out = .ok () ∧
+      delivered rd.2 = texts.flatten.flatten.take ns.sum := by
+  intro o1 pr o2 rd
+  obtain ⟨_, a2, _, a4, _⟩ := fileOpen_ref_w l k hk mw hmw
+  have hw : mw.canWrite = true := by rcases hmw with rfl | rfl <;> rfl
+  have hr : mr.canRead = true := by rcases hmr with rfl | rfl <;> rfl
+  obtain ⟨b1, b2⟩ := printAll_at_end (c := []) a4 hk hw texts
+  simp only [List.nil_append] at b2
+  obtain ⟨c1, c2, _, c4⟩ := fileOpen_ref_reopen b2 hk k hk mr hmr _ b2.file_exists
+  obtain ⟨d1, _⟩ := readAll_at c4 hk hr ns
+  refine ⟨a2, b1, c1, ?_⟩
+  show delivered (readAll refIO o2.lib o2.f ns).2 = _
+  have hof2 : o2.f = some pr.1.next := c2
+  rw [hof2, d1, delivered_readSpec]; simp
+
+/-- **scan_from reads exactly the bytes that follow the position**: on an open readable stream the outcome of
+    `scan_from(f, 0, "%$ ", intObject)`, the new position and the end-of-file flag are functions of the file's bytes after
+    the position (`Ref.scanDec`: white space, optional sign, decimal digits) — FormatError when no number is there. -/
+theorem C20_scan_reads_bytes {l : Ref} {h : Handle} {k : Nat} {m : Mode} {p : Nat} {e : Bool} {c : List Byte}
+    (a : At l h k m p e c) (hk : Regular k) (hr : m.canRead = true) :
+    let r := fileScanInt refIO l (some h)
+    let sd := Ref.scanDec (c.drop p)
+    match sd.2.2 with
+    | none => r.out = .raised .FormatError ∧ At r.lib h k m (p + sd.1) (e || sd.2.1) c
+    | some v =>
+      let ws := ((c.drop (p + sd.1)).takeWhile isSpace).length
+      r.out = .ok v ∧ At r.lib h k m (p + sd.1 + ws) (e || sd.2.1 || ((c.drop (p + sd.1)).drop ws).length = 0) c :=
+  fileScanInt_at a hk hr
+
+/-- text round trip on a concrete history: `print_to(f,0,"%$ ",$I(42))`, `…$I(-7)` (fragments "42"," ","-7"," "), seek
+    to the start, two scans return 42 and −7, the third hits the end of the file: FormatError and seof -/
+example :
+    let l0 := (step refIO Cfg.fixed Ref.init none (.open 3 .wp)).lib
+    let p1 := step refIO Cfg.fixed l0 (some 1) (.print [[52, 50], [32]])
+    let p2 := step refIO Cfg.fixed p1.lib (some 1) (.print [[45, 55], [32]])
+    let sk := step refIO Cfg.fixed p2.lib (some 1) (.seek 0 .set)
+    let s1 := step refIO Cfg.fixed sk.lib (some 1) .scanInt
+    let s2 := step refIO Cfg.fixed s1.lib (some 1) .scanInt
+    let s3 := step refIO Cfg.fixed s2.lib (some 1) .scanInt
+    p1.out = .ok (.int 3) ∧ p2.out = .ok (.int 3) ∧ s1.out = .ok (.int 42) ∧ s2.out = .ok (.int (-7)) ∧
+      s3.out = .raised .FormatError ∧ (step refIO Cfg.fixed s3.lib (some 1) .eof).out = .ok (.bool true) ∧
+      s3.lib.files = [(3, [52, 50, 32, 45, 55, 32])] := by
+  decide
+
 /-- any two chunkings of the reads deliver the same bytes (a consequence used by the two theorems above) -/
 theorem C20_read_chunking_irrelevant (c : List Byte) (p : Nat) (ns ms : List Nat) (h : ns.sum = ms.sum) :
     delivered (readSpec c p ns) = delivered (readSpec c p ms) := by
